@@ -20,7 +20,7 @@ def build(chk):
     pvalidate = eng.method('validate', first_param='&ParametricInstance')
     tryfrom = eng.find_body(lambda b: b.name.split('::')[-1] == 'try_from' and b.param_tys == ['v1::Instance'])
     B, rd = Build(chk), Rd(chk)
-    chk.bounds = {'validate': '3 variables with ids from {1,2,3}, 2 active constraint ids from {10,11}, 1 removed id from {10,11,12}, used ids at each position from defined/undefined ids '
+    chk.bounds = {'validate': '3 variables with ids from {1,2,3}, 2 active constraint ids from {10,11}, 2 removed ids from {10,11,12} x {12,13}, used ids at each position from defined/undefined ids '
                   '(every combination explored, so single and double faults are regions of one space)',
                   'typed conversion': 'sense, kinds, equalities symbolic 32-bit integers (unspecified and unknown values included); every optional message field present/absent; bound endpoints '
                   'symbolic with NaN/+-inf by explored choice; one-hot and SOS1 hints and a dependency with ids from defined/undefined/repeated'}
@@ -31,17 +31,18 @@ def build(chk):
         vids = [[1, 2, 3][P.choose(3)] for _ in range(3)]
         cids = [[10, 11][P.choose(2)] for _ in range(2)]
         rid = [10, 11, 12][P.choose(3)]
+        rid2 = [12, 13][P.choose(2)]          # a second removed constraint: duplicates inside the removed list alone
         uo = [1, 2, 3, 4][P.choose(4)]
         uc = [1, 4][P.choose(2)]
         ur = [2, 4][P.choose(2)]
         rem_has_constraint = P.choose(2)
         spec = Inst(objective=lin_ids(chk, [uo]), vars=[Var(i, 3) for i in vids], cons=[Con(cids[0], EQ, lin_ids(chk, [uc])), Con(cids[1], LE, None)],
-                    removed=[Rem(Con(rid, EQ, lin_ids(chk, [ur])))])
+                    removed=[Rem(Con(rid, EQ, lin_ids(chk, [ur]))), Rem(Con(rid2, LE, lin_ids(chk, [1])))])
         inst = B.instance(spec)
         if not rem_has_constraint:
             eng.setfield(deref(eng.field(inst, 'v1::Instance', 'removed_constraints')).items[0], 'v1::RemovedConstraint', 'constraint', NONE())
-        used = {uo, uc} | ({ur} if rem_has_constraint else set())
-        allc = cids + ([rid] if rem_has_constraint else [])
+        used = {uo, uc, 1} | ({ur} if rem_has_constraint else set())
+        allc = cids + ([rid] if rem_has_constraint else []) + [rid2]
         well = len(set(vids)) == 3 and len(set(allc)) == len(allc) and used <= set(vids)
 
         def witness(model):
